@@ -176,3 +176,58 @@ Record idx_counters := mkIdx { ic_usage : N; ic_would_have_helped : N }.
 Definition execute_with_indexes {A : Type} (exec : list row -> A) (visible_hits invisible_hits : N)
            (st : idx_counters) (rows : list row) : idx_counters * A :=
   (mkIdx (ic_usage st + visible_hits) (ic_would_have_helped st + invisible_hits), exec rows).
+
+(* ---------- per-query table registration and statement typing ---------- *)
+(* Type of the `timestamp` column of a table bound to the name `metrics`:
+   Int64 (Flight ingest) or Timestamp(Nanosecond, UTC) (remote-write / OTLP
+   ingest, and MetricSchema::default_metrics()). *)
+Inductive tskind := KInt64 | KNanos.
+
+Definition tskind_eqb (a b : tskind) : bool :=
+  match a, b with
+  | KInt64, KInt64 => true
+  | KNanos, KNanos => true
+  | _, _ => false
+  end.
+
+(* QueryEngine::new registers an EmptyTable with the default metrics schema *)
+Definition default_kind : tskind := KNanos.
+
+(* the part of the engine state a statement's type check depends on: the
+   schema of the table currently bound to `metrics` *)
+Record qnode := mkQnode { qn_schema : tskind }.
+Definition qnode_fresh : qnode := mkQnode default_kind.
+
+(* register_metrics_table_for_chunks: a non-empty selection binds a listing
+   table with the schema of the chunk files; an EMPTY selection re-registers
+   an EmptyTable with the schema of whatever is bound at that moment
+   (register_empty_metrics_table / metrics_table_schema). *)
+Definition register (st : qnode) (data : tskind) (sel : list path) : qnode :=
+  match sel with
+  | [] => st
+  | _ :: _ => mkQnode data
+  end.
+
+(* QueryNode::query_for_tenant after the chunk selection: bind, then plan and
+   run the statement against the bound table.  [typechecks k]: the statement's
+   comparisons type-check against a timestamp column of kind k (DataFusion
+   refuses e.g. Timestamp >= Int64: "type_coercion" error = Failed 1). *)
+Definition run_query {A : Type} (typechecks : tskind -> bool) (exec : list row -> A)
+           (content : path -> list row) (st : qnode) (data : tskind) (sel : list path)
+  : qnode * outcome A :=
+  let st' := register st data sel in
+  (st', if typechecks (qn_schema st') then Done (exec (rows_of content sel)) else Failed 1%N).
+
+(* the same statement over one table holding every ingested row *)
+Definition full_scan {A : Type} (typechecks : tskind -> bool) (exec : list row -> A)
+           (content : path -> list row) (data : tskind) (live : list path) : outcome A :=
+  if typechecks data then Done (exec (rows_of content live)) else Failed 1%N.
+
+(* Known class "empty-selection-schema-of-earlier-registration": no chunk is
+   selected and the table bound before the query (the start-up default, or an
+   earlier registration) has another timestamp type than the ingested data. *)
+Definition known_empty_selection_schema (st : qnode) (data : tskind) (sel : list path) : bool :=
+  match sel with
+  | [] => negb (tskind_eqb (qn_schema st) data)
+  | _ :: _ => false
+  end.
